@@ -98,6 +98,15 @@ class Lib:
 
     def array_compare(self, E, op, l, r, st):
         _used(E, "numpy elementwise comparison (NaN compares False)")
+        if isinstance(op, (ast.In, ast.NotIn)):
+            # scalar in 1-D array: some entry compares equal
+            b = as_array(r, st) if isinstance(r, Ref) else None
+            if b is None or b.ndim != 1 or not is_scalar(l) or b.kind not in ("i", "b"):
+                return Opaque("array-in")
+            _used(E, "x in 1-D integer array <=> some entry equals x")
+            q = z3.Int("q_in")
+            res = z3.Exists([q], z3.And(0 <= q, q < to_int(b.shape[0]), to_int(b.sel(q)) == to_int(l)))
+            return res if isinstance(op, ast.In) else z3.Not(res)
         a, b = as_array(l, st), as_array(r, st)
         if a is None or b is None:
             return Opaque("array-cmp")
@@ -174,20 +183,28 @@ class Lib:
         """a[mask]: order-preserving filter. pos: result position -> source position (strictly increasing),
         exactly the True positions."""
         _used(E, "numpy boolean-mask filter a[m] (order preserving, length = count of True)")
-        m = fresh("m_len", I)
-        pos = fresh_fn("pos", I, I)
-        t, u, j = z3.Ints("t u j")
-        n = to_int(d.shape[0])
-        st.assume(m >= 0, m <= n)
-        st.assume(z3.ForAll([t], z3.Implies(z3.And(0 <= t, t < m), z3.And(0 <= pos(t), pos(t) < n, z3bool(mask.sel(pos(t)))))))
-        st.assume(z3.ForAll([t, u], z3.Implies(z3.And(0 <= t, t < u, u < m), pos(t) < pos(u))))
-        inv = fresh_fn("inv", I, I)
-        st.assume(z3.ForAll([j], z3.Implies(z3.And(0 <= j, j < n, z3bool(mask.sel(j))),
-                                            z3.And(0 <= inv(j), inv(j) < m, pos(inv(j)) == j))))
-        A = mask_array(mask.sel)
-        st.assume(m == CNT(A, n))                       # length of a[m] = number of True entries (definition of CNT)
-        for f in cnt_lemma_instances(A, n):
-            st.assume(f)
+        n = z3.simplify(to_int(d.shape[0]))
+        memo = getattr(mask, "_filter_memo", None)
+        if memo is not None and z3.eq(memo[0], n):
+            # the positions selected by a mask are a function of the mask alone: two filters by the SAME mask value (array values are
+            # immutable here, so the same object) share their position function
+            _, m, pos, inv, axioms = memo
+        else:
+            m = fresh("m_len", I)
+            pos = fresh_fn("pos", I, I)
+            t, u, j = z3.Ints("t u j")
+            inv = fresh_fn("inv", I, I)
+            A = mask_array(mask.sel)
+            axioms = [m >= 0, m <= n,
+                      z3.ForAll([t], z3.Implies(z3.And(0 <= t, t < m), z3.And(0 <= pos(t), pos(t) < n, z3bool(mask.sel(pos(t)))))),
+                      z3.ForAll([t, u], z3.Implies(z3.And(0 <= t, t < u, u < m), pos(t) < pos(u))),
+                      z3.ForAll([j], z3.Implies(z3.And(0 <= j, j < n, z3bool(mask.sel(j))),
+                                                z3.And(0 <= inv(j), inv(j) < m, pos(inv(j)) == j))),
+                      m == CNT(A, n)]                    # length of a[m] = number of True entries (definition of CNT)
+            axioms += list(cnt_lemma_instances(A, n))
+            mask._filter_memo = (n, m, pos, inv, axioms)
+        if not any(h is axioms[2] for h in st.pc):
+            st.assume(*axioms)
         res = ArrData((m,) + d.shape[1:], lambda i, *r: d.sel(pos(i), *r), d.kind)
         res.filter_of = (mask, pos, m, inv)
         return st.alloc(res)
@@ -364,7 +381,14 @@ class Lib:
                 return f(E, st, [ref] + args, kwargs, node)
         if name == "reshape" and d.ndim == 1 and len(args) == 2 and args[0] == -1 and args[1] == 1:
             return st.alloc(ArrData((d.shape[0], 1), lambda i, j: d.sel(i), d.kind))
-        return E.unknown_call("ndarray." + name, [ref] + args, kwargs, st, node)
+        if name in ("ravel", "flatten") and d.ndim == 1:
+            return st.alloc(ArrData(d.shape, d.sel, d.kind))
+        if name in ("sort", "fill", "resize", "put", "itemset", "partition", "setflags", "byteswap", "setfield"):
+            return E.unknown_call("ndarray." + name, [ref] + args, kwargs, st, node)       # in-place methods: contents unknown afterwards
+        r = Opaque("call:ndarray." + name)                                                 # other ndarray methods do not modify the array
+        st.events.append(("call", "ndarray." + name, [ref] + list(args), kwargs, r, {ref.id: d}))
+        E.abstracted.add("ndarray." + name + " (pure, result unknown)")
+        return r
 
     def rng_method(self, E, ref, d, name, args, kwargs, st):
         _used(E, "RandomState model (uniform stream with position; get_state/set_state)")
@@ -847,11 +871,13 @@ def register_builtins(L):
         _used(E, "np.zeros/ones/full/empty (empty: contents unconstrained)")
         name = unparse(node.func).split(".")[-1]
         shape = args[0] if args else kw.get("shape")
+        like_kind = None
         if name.endswith("_like"):
             a = as_array(shape, st) if isinstance(shape, Ref) else None
             if a is None:
                 return Opaque(name)
             shape = a.shape
+            like_kind = a.kind        # *_like inherits the dtype of the template unless dtype= is given
         if not isinstance(shape, tuple):
             shape = (shape,)
         if any(not (is_int_like(s)) for s in shape):
@@ -876,10 +902,12 @@ def register_builtins(L):
             v = args[1] if len(args) > 1 else kw.get("fill_value")
             if not is_scalar(v):
                 return Opaque("full")
-            k = _dtype_kind(dt, kind_of(v))
+            k = _dtype_kind(dt, like_kind or kind_of(v))
             if k == "f":
                 n, r = to_real(v)
                 v = mk_fv(n, r)
+            if k == "o":
+                return st.alloc(ArrData(shape, fresh_sel("like", "o", len(shape)), "o"))
             return st.alloc(ArrData(shape, lambda *i: v, k))
         raise Unsupported(name)
 
@@ -932,6 +960,12 @@ def register_builtins(L):
     def _np_anyall(E, st, args, kw, node):
         v = args[0]
         a = as_array(v, st) if isinstance(v, Ref) else None
+        if a is not None and a.kind == "b" and a.ndim == 2 and kw.get("axis", args[1] if len(args) > 1 else None) in (1, -1):
+            jj = z3.Int("qa")
+            m1 = to_int(a.shape[1])
+            if unparse(node.func).endswith("any"):
+                return st.alloc(ArrData((a.shape[0],), lambda i: z3.Exists([jj], z3.And(0 <= jj, jj < m1, z3bool(a.sel(i, jj)))), "b"))
+            return st.alloc(ArrData((a.shape[0],), lambda i: z3.ForAll([jj], z3.Implies(z3.And(0 <= jj, jj < m1), z3bool(a.sel(i, jj)))), "b"))
         if a is None or a.kind != "b" or kw or len(args) > 1:
             return Opaque("anyall")
         idx = [z3.Int(f"q{i}") for i in range(a.ndim)]
@@ -1089,6 +1123,47 @@ def register_builtins(L):
         res = ArrData((d.shape[0], 1), lambda i, j, d=d: d.sel(i), "i")
         res.filter_of = d.filter_of
         return st.alloc(res)
+
+    @fn("np.concatenate")
+    def _np_concatenate(E, st, args, kw, node):
+        """np.concatenate([a, b, ...], axis=0) of 1-D arrays of one kind: the entries of a, then those of b, ..."""
+        seq = args[0]
+        parts = None
+        if isinstance(seq, tuple):
+            parts = list(seq)
+        elif isinstance(seq, Ref) and isinstance(st.get(seq), ListData) and isinstance(st.get(seq).n, int) and st.get(seq).n <= 4:
+            ld = st.get(seq)
+            parts = [ld.sel(k) for k in range(ld.n)]
+        ax = kw.get("axis", args[1] if len(args) > 1 else 0)
+        arrs = [as_array(p_, st) if isinstance(p_, Ref) else None for p_ in (parts or [])]
+        if not parts or any(a is None or a.ndim != 1 for a in arrs) or ax != 0 or len({a.kind for a in arrs}) != 1:
+            return _np_pure(E, st, args, kw, node)
+        _used(E, "np.concatenate of 1-D arrays: entries in order")
+        offs = [0]
+        for a in arrs:
+            offs.append(z3.simplify(to_int(offs[-1]) + to_int(a.shape[0])))
+
+        def sel(i, arrs=tuple(arrs), offs=tuple(offs)):
+            v = arrs[-1].sel(i - offs[len(arrs) - 1])
+            for k in range(len(arrs) - 2, -1, -1):
+                v = _ite_val(i < offs[k + 1], arrs[k].sel(i - offs[k]), v)
+            return v
+        r = ArrData((offs[-1],), sel, arrs[0].kind)
+        r.concat_of = tuple(arrs)
+        return st.alloc(r)
+
+    @fn("np.append", "np.size", "np.issubdtype", "np.shape", "np.ndim", "np.array_equal", "np.allclose", "np.mean", "np.std",
+        "np.var", "np.dot", "np.matmul", "np.exp", "np.log", "np.abs", "np.sqrt", "np.square", "np.nan_to_num", "np.tile", "np.searchsorted",
+        "np.isin", "np.argsort", "np.sort", "np.stack", "np.vstack", "np.hstack", "np.linalg.norm", "np.average", "np.cumsum", "np.diff",
+        "np.clip", "np.round", "np.floor", "np.ceil", "np.prod", "np.eye", "np.diag", "np.outer", "np.einsum", "np.take_along_axis",
+        "np.argpartition", "np.delete", "np.ix_", "np.meshgrid", "np.linspace", "np.isfinite", "np.isinf", "np.sign", "np.power")
+    def _np_pure(E, st, args, kw, node):
+        """numpy functions without a contract here: the result is unknown, the arguments are NOT modified (pure functions)"""
+        name = unparse(node.func)
+        r = Opaque("call:" + name)
+        st.events.append(("call", name, args, kw, r, {a.id: st.heap.get(a.id) for a in list(args) + list(kw.values()) if isinstance(a, Ref)}))
+        E.abstracted.add(name + " (pure, result unknown)")
+        return r
 
     @fn("np.isscalar")
     def _np_isscalar(E, st, args, kw, node):
